@@ -378,6 +378,9 @@ func runCase(c Case) (*ev.Failure, bool) {
 				}
 			}
 		}
+		if f := glue.ExtendAndRecheck(dm); f != nil {
+			return ev.Failf("data set %d: %s", si, f.Msg), true
+		}
 	}
 	return nil, true
 }
